@@ -31,7 +31,6 @@ import (
 	"github.com/opencontainers/go-digest"
 	ocispec "github.com/opencontainers/image-spec/specs-go/v1"
 	"oras.land/oras-go/v2"
-	"oras.land/oras-go/v2/content"
 	"oras.land/oras-go/v2/content/memory"
 	"oras.land/oras-go/v2/content/oci"
 )
@@ -219,10 +218,10 @@ func (l *logTarget) count(d digest.Digest) int {
 // the alphabet (11 operations)
 var alphabet = []string{
 	"push:1:jws", "push:1:cose", "push:2:jws", "push:2:cose", "push:3:jws", "push:3:cose",
-	"foreign:image-other-type@1",   // image manifest, other config media type (artifact type), subject S1
-	"foreign:legacy-other-type@3",  // legacy artifact manifest, other artifact type, subject S3
-	"foreign:legacy-notation@2",    // legacy artifact manifest of the Notation type, subject S2: MUST be listed
-	"foreign:notation@s1prime-mt",  // Notation image manifest, subject = S1's digest+size with another media type; its single layer IS S1 (so the store's graph returns it for S1)
+	"foreign:image-other-type@1",    // image manifest, other config media type (artifact type), subject S1
+	"foreign:legacy-other-type@3",   // legacy artifact manifest, other artifact type, subject S3
+	"foreign:legacy-notation@2",     // legacy artifact manifest of the Notation type, subject S2: MUST be listed
+	"foreign:notation@s1prime-mt",   // Notation image manifest, subject = S1's digest+size with another media type; its single layer IS S1 (so the store's graph returns it for S1)
 	"foreign:notation@s1prime-size", // Notation image manifest, subject = S1's digest+media type with another size
 }
 
@@ -322,6 +321,15 @@ func annotationsFor(step int) map[string]string {
 		}
 	}
 	return map[string]string{}
+}
+
+func sortedKeys(m map[string]string) []string {
+	ks := make([]string, 0, len(m))
+	for k := range m {
+		ks = append(ks, k)
+	}
+	sort.Strings(ks)
+	return ks
 }
 
 func copyMap(m map[string]string) map[string]string {
@@ -451,6 +459,7 @@ func (w *world) check(repo registry.Repository, raw oras.GraphTarget, phase stri
 	}
 	for si := 0; si < 3; si++ {
 		w.evals++
+		before := len(vs)
 		listed, err := listAll(repo, w.subj[si])
 		if err != nil {
 			add("list/error", "ListSignatures(S%d) failed: %v", si+1, err)
@@ -486,9 +495,10 @@ func (w *world) check(repo registry.Repository, raw oras.GraphTarget, phase stri
 				add("list/other-subject-listed", "listing S%d yields %s pushed by %q for S%d", si+1, d.Digest, rc.Op, rc.Subject+1)
 			}
 		}
-		for dg, n := range got {
-			if n > 1 && want[dg] < n {
-				add("list/duplicate", "listing S%d yields %s %d times", si+1, dg, n)
+		for _, d := range listed {
+			if n := got[d.Digest]; n > 1 && want[d.Digest] < n {
+				add("list/duplicate", "listing S%d yields %s %d times", si+1, d.Digest, n)
+				break
 			}
 		}
 		for i := range w.recs {
@@ -497,7 +507,9 @@ func (w *world) check(repo registry.Repository, raw oras.GraphTarget, phase stri
 				add("list/pushed-signature-not-listed:"+rc.Class, "listing S%d lacks %s pushed by %q (listed: %d manifests)", si+1, rc.Manifest.Digest, rc.Op, len(listed))
 			}
 		}
-		outcomes[fmt.Sprintf("%s/%s list: signatures-of-subject=%s other-manifests-in-store=%s", w.kind, phase, sat(nwant), sat(nother))]++
+		if len(vs) == before {
+			outcomes[fmt.Sprintf("list: exactly the %s signature(s) of the subject, %s other manifest(s) in the store", sat(nwant), sat(nother))]++
+		}
 		// every listed, expected manifest: fetch and compare
 		for _, d := range listed {
 			rc := byDigest[d.Digest]
@@ -519,7 +531,7 @@ func (w *world) check(repo registry.Repository, raw oras.GraphTarget, phase stri
 			case !same(bd, rc.BlobDesc):
 				add("fetch/blob-descriptor-differs-from-push-result", "FetchSignatureBlob(%s) of %q returned %+v, push returned %+v", d.Digest, rc.Op, bd, rc.BlobDesc)
 			default:
-				outcomes[fmt.Sprintf("%s/%s fetch: identical bytes+media type (%s, %s)", w.kind, phase, rc.Class, rc.MediaType)]++
+				outcomes[fmt.Sprintf("fetch: identical bytes+media type (%s, %s)", rc.Class, rc.MediaType)]++
 			}
 			// the manifest as stored (read underneath the API)
 			mb, err := fetchRaw(raw, d)
@@ -532,9 +544,9 @@ func (w *world) check(repo registry.Repository, raw oras.GraphTarget, phase stri
 				add("push/manifest-not-json", "manifest %s of %q: %v", d.Digest, rc.Op, err)
 				continue
 			}
-			for k, v := range rc.Ann {
-				if gv, ok := m.Annotations[k]; !ok || gv != v {
-					add("push/annotations-not-on-manifest", "manifest %s of %q: annotation %q = %q (present %v), pushed %q", d.Digest, rc.Op, k, gv, ok, v)
+			for _, k := range sortedKeys(rc.Ann) {
+				if gv, ok := m.Annotations[k]; !ok || gv != rc.Ann[k] {
+					add("push/annotations-not-on-manifest", "manifest %s of %q: annotation %q = %q (present %v), pushed %q", d.Digest, rc.Op, k, gv, ok, rc.Ann[k])
 					break
 				}
 			}
@@ -557,7 +569,7 @@ func (w *world) check(repo registry.Repository, raw oras.GraphTarget, phase stri
 				}
 			}
 			if len(rc.Ann) > 0 {
-				outcomes[fmt.Sprintf("%s/%s listed descriptor carries the pushed annotations: %v", w.kind, phase, carried)]++
+				outcomes[fmt.Sprintf("listed descriptor carries the pushed annotations: %v (not judged)", carried)]++
 			}
 		}
 	}
@@ -572,7 +584,7 @@ func (w *world) check(repo registry.Repository, raw oras.GraphTarget, phase stri
 		w.evals++
 		listed, err := listAll(repo, w.subj[si])
 		if err != nil {
-			outcomes[fmt.Sprintf("%s/%s list(%s): error (not judged)", w.kind, phase, label)]++
+			outcomes[fmt.Sprintf("list(%s): error (not judged)", label)]++
 			continue
 		}
 		own := 0
@@ -589,7 +601,10 @@ func (w *world) check(repo registry.Repository, raw oras.GraphTarget, phase stri
 				add("list/other-subject-listed", "listing %s yields %s pushed by %q for S%d", label, d.Digest, rc.Op, rc.Subject+1)
 			}
 		}
-		outcomes[fmt.Sprintf("%s/%s list(%s): own manifests listed=%s (not judged)", w.kind, phase, label, sat(own))]++
+		outcomes[fmt.Sprintf("list(%s): nothing of S1; own manifests listed=%s (not judged)", label, sat(own))]++
+	}
+	if len(vs) == 0 {
+		outcomes[fmt.Sprintf("history judged, all checks passed: %s store, %s", w.kind, phase)]++
 	}
 	return vs
 }
@@ -735,16 +750,103 @@ func pow(b, e int) int {
 var (
 	statesMu sync.Mutex
 	states   = map[string]struct{}{}
+	outMu    sync.Mutex
+	outAgg   = map[string]int{}
 )
 
+func mergeOutcomes(m map[string]int) {
+	outMu.Lock()
+	for k, v := range m {
+		outAgg[k] += v
+	}
+	outMu.Unlock()
+}
+
+// flushOutcomes hands the aggregated histogram to the run (hx counts one observation per call).
+func flushOutcomes(r *hx.Run) {
+	outMu.Lock()
+	defer outMu.Unlock()
+	keys := make([]string, 0, len(outAgg))
+	for k := range outAgg {
+		keys = append(keys, k)
+	}
+	sort.Strings(keys)
+	for _, k := range keys {
+		for n := outAgg[k]; n > 0; n-- {
+			r.Outcome(k)
+		}
+	}
+	outAgg = map[string]int{}
+}
+
+// frontierHistories: beyond the all-orders bound. Every count vector in {0,1,2}^11 (0, 1 or 2
+// manifests of each operation kind) with lo <= total <= hi operations, each in two orders
+// (kind by kind in alphabet order; round-robin in reverse alphabet order).
+func frontierHistories(lo, hi int) [][]string {
+	var out [][]string
+	cnt := make([]int, len(alphabet))
+	var rec func(k, total int)
+	rec = func(k, total int) {
+		if k == len(alphabet) {
+			if total < lo {
+				return
+			}
+			var a, b []string
+			for i, c := range cnt {
+				for j := 0; j < c; j++ {
+					a = append(a, alphabet[i])
+				}
+			}
+			for round := 1; round <= 2; round++ {
+				for i := len(alphabet) - 1; i >= 0; i-- {
+					if cnt[i] >= round {
+						b = append(b, alphabet[i])
+					}
+				}
+			}
+			out = append(out, a, b)
+			return
+		}
+		for c := 0; c <= 2 && total+c <= hi; c++ {
+			cnt[k] = c
+			rec(k+1, total+c)
+		}
+		cnt[k] = 0
+	}
+	rec(0, 0)
+	return out
+}
+
 func explore(r *hx.Run, kind string, depth int) {
+	exploreLevels(r, kind, depth, nil)
+}
+
+func exploreFrontier(r *hx.Run, kind string, lo, hi int) {
+	exploreLevels(r, kind+"#frontier", -1, frontierHistories(lo, hi))
+	r.Extra["frontier_"+kind] = fmt.Sprintf("every combination of 0, 1 or 2 manifests of each of the 11 operation kinds with %d..%d operations in total, two orders each (not all orders)", lo, hi)
+}
+
+func exploreLevels(r *hx.Run, label string, depth int, fixed [][]string) {
+	kind := strings.TrimSuffix(label, "#frontier")
 	col := &collector{}
 	var okControls, sequences int64
 	var cmu sync.Mutex
-	for length := 0; length <= depth; length++ {
+	levels := depth
+	if fixed != nil {
+		levels = 0
+	}
+	for length := 0; length <= levels; length++ {
 		n := pow(len(alphabet), length)
+		if fixed != nil {
+			n = len(fixed)
+		}
 		r.Parallel(n, func(i int) {
-			ops := decode(i, length)
+			var ops []string
+			if fixed != nil {
+				ops = fixed[i]
+			} else {
+				ops = decode(i, length)
+			}
 			vs, outcomes, evals, nsig, nother, infra := runHistory(kind, ops)
 			r.Eval(evals)
 			r.Transition(1)
@@ -759,7 +861,7 @@ func explore(r *hx.Run, kind string, depth int) {
 			for _, v := range vs {
 				col.add(i, v, histCase{"history", kind, ops})
 			}
-			r.MergeOutcomes(outcomes)
+			mergeOutcomes(outcomes)
 			cmu.Lock()
 			sequences++
 			if len(vs) == 0 && nsig > 0 {
@@ -769,19 +871,27 @@ func explore(r *hx.Run, kind string, depth int) {
 			if nsig > 0 && (nother > 0 || nsig > 1) {
 				r.Nontrivial(kind + "|" + cn)
 			}
-			if length == depth && i%(n/3+1) == n/7 {
+			if (length == depth || fixed != nil) && i%(n/3+1) == n/7 {
 				r.Sample(map[string]any{"store": kind, "history": ops, "signatures": nsig, "other_manifests": nother, "violations": len(vs)})
 			}
 		}, func(i int, v any, stack string) {
-			col.add(i, viol{"history/panic", fmt.Sprintf("[%s store] panic: %v\n%s", kind, v, stack)}, histCase{"history", kind, decode(i, length)})
+			ops := []string(nil)
+			if fixed != nil {
+				ops = fixed[i]
+			} else {
+				ops = decode(i, length)
+			}
+			col.add(i, viol{"history/panic", fmt.Sprintf("[%s store] panic: %v\n%s", kind, v, stack)}, histCase{"history", kind, ops})
 		})
 		col.flush(r)
 	}
-	r.Extra["sequences_"+kind] = sequences
-	r.Extra["depth_"+kind] = depth
-	r.Extra["histories_with_signatures_all_checks_passed_"+kind] = okControls
-	if okControls == 0 {
-		r.Infra("%s: no history with a signature passed all checks (positive control)", kind)
+	r.Extra["sequences_"+label] = sequences
+	if fixed == nil {
+		r.Extra["depth_all_orders_"+label] = depth
+	}
+	r.Extra["histories_with_signatures_all_checks_passed_"+label] = okControls
+	if okControls == 0 && r.Violations() == 0 {
+		r.Infra("%s: no history with a signature passed all checks (positive control)", label)
 	}
 }
 
@@ -1024,26 +1134,29 @@ func runHostile(c hostileCase) (vs []viol, outcome string, evals int, infra erro
 		}
 	}
 	switch {
-	case c.Special != "" || c.Format == "index" && found:
+	case c.Special != "":
+		// a Notation manifest that points at S1 by a layer edge only must not be listed for S1
 		if found {
-			key := "list/other-subject-listed"
+			key := "list/other-subject-listed:"
 			if c.Special == "no-subject-layer-is-s1" {
-				key = "list/no-subject-listed"
-			} else if c.Format == "index" {
-				key = "list/index-listed"
+				key = "list/no-subject-listed:"
 			}
-			if c.Format != "index" { // an index of the Notation type is not judged by the statement
-				add(key+":"+c.Name, "listing S1 yields %s (%s)", md.Digest, c.Name)
-			}
+			add(key+c.Name, "listing S1 yields %s (%s)", md.Digest, c.Name)
 		}
-	case c.Real == "big-manifest" && found && lerr == nil:
-		add("hostile/accepted:"+c.Name+":listing", "ListSignatures yields the %d byte manifest", md.Size)
-	case found && lerr == nil && c.DeclManifest == "true":
+	case c.Format == "index":
+		// whether an image index of the Notation type is listed is not fixed by the statement
+	case c.Real == "big-manifest":
+		if found && lerr == nil {
+			add("hostile/accepted:"+c.Name+":listing", "ListSignatures yields the %d byte manifest", md.Size)
+		}
+	case c.DeclManifest != "true":
+		// the declared manifest size is a property of the hand-made descriptor only
+	case found && lerr == nil:
 		o2 := judgeFetch("listed", md2(listed, md.Digest))
 		if o2 != outcome {
 			outcome += " / listed: " + strings.TrimPrefix(o2, "hostile: ")
 		}
-	case !mustRefuse && !atCap && c.DeclManifest == "true":
+	case !mustRefuse && !atCap:
 		add("list/pushed-signature-not-listed:hand-written-"+c.Format, "listing S1 lacks the well-formed %s Notation manifest (error: %v)", c.Format, lerr)
 	}
 	return vs, outcome, evals, nil
@@ -1118,10 +1231,11 @@ func replay(r *hx.Run) {
 			r.Infra("replay: %v", infra)
 			return
 		}
-		r.MergeOutcomes(outcomes)
+		mergeOutcomes(outcomes)
 		for _, v := range vs {
 			r.Violation(v.key, v.what, c)
 		}
+		flushOutcomes(r)
 		if len(vs) == 0 {
 			fmt.Println("replay: holds")
 		}
@@ -1161,15 +1275,19 @@ func main() {
 		replay(r)
 		r.Finish()
 	}
-	dMem, dLoose, dDisk := 3, 3, 3
+	dMem, dLoose, dDisk := 4, 3, 3
+	fLo, fHi := 5, 7
 	if r.Thorough() {
-		dMem, dLoose, dDisk = 5, 4, 3
+		dMem, dLoose, dDisk = 5, 5, 4
+		fLo, fHi = 6, 12
 	}
 	r.Extra["alphabet"] = alphabet
 	explore(r, "memory", dMem)
 	explore(r, "loose", dLoose)
 	explore(r, "disk", dDisk)
+	exploreFrontier(r, "memory", fLo, fHi)
 	exploreHostile(r)
+	flushOutcomes(r)
 	statesMu.Lock()
 	r.State(len(states))
 	statesMu.Unlock()
